@@ -560,3 +560,74 @@ def rule_setup_spec(qual, extra_int, prop):
 
 PLR_SETUP = rule_setup_spec("PriceLimitRule.setup", [], "C15")
 THR_SETUP = rule_setup_spec("TradingHaltRule.setup", [("haltingTimeLength", "halting_time_length")], "C16")
+
+
+# ----------------------------------------------------------------------------- TradingHaltRule.hook_registration: one after-execution hook and one before-step hook PER target market (C16)
+def thr_reg_post(st0, st1, a, res):
+    rule = a["self"]
+    en = st0.read(rule, "is_enabled").term
+    tm = st0.read(rule, "target_markets")
+    ks = z3.StringSort()
+    cnt = z3.Function("dict_size_String", z3.ArraySort(ks, z3.BoolSort()), z3.IntSort())
+    n = st1.length(res.term); el = st1.elems(res.term, ("ref", "EventHook"))
+    hk = lambda j: V(("ref", "EventHook"), z3.Select(el, j))
+    f0 = hook_fields(st1, hk(0))
+    j = z3.Int("j_thr"); k = z3.Const("k_thr", ks)
+    fj = hook_fields(st1, hk(j))
+    is_step_hook = z3.And(fj["event"].term == rule.term, fj["hook_type"].term == z3.StringVal("market"), fj["is_before"].term, fj["time"].none, fj["specific_class"].none, z3.Not(fj["specific_instance"].none))
+    return [("disabled: no hook", z3.Implies(z3.Not(en), n == 0)),
+            ("C16 enabled: the first hook is the after-execution hook of this rule, at all times",
+             z3.Implies(en, z3.And(n >= 1, f0["event"].term == rule.term, f0["hook_type"].term == z3.StringVal("execution"), z3.Not(f0["is_before"].term), f0["time"].none))),
+            ("C16 enabled: as many before-step hooks as target markets", z3.Implies(en, n == 1 + cnt(st0.dict_dom(tm)))),
+            ("C16 enabled: every further hook is a before-step hook of this rule for one of its target markets, at all times",
+             z3.Implies(en, z3.ForAll([j], z3.Implies(z3.And(1 <= j, j < n), z3.And(is_step_hook, z3.Exists([k], z3.And(z3.Select(st0.dict_dom(tm), k), z3.Select(st0.dict_val(tm), k) == fj["specific_instance"].term))))))),
+            ("C16 enabled: every target market has its before-step hook",
+             z3.Implies(en, z3.ForAll([k], z3.Implies(z3.Select(st0.dict_dom(tm), k), z3.Exists([j], z3.And(1 <= j, j < n, hook_fields(st1, hk(j))["specific_instance"].term == z3.Select(st0.dict_val(tm), k)))))))]
+
+
+def thr_reg_loops():
+    def inv(st, ctx):
+        i = ctx["i"]; rule = st.env["self"]; at = ctx["at"]
+        L = st.env["event_hooked_before_step_for_market"]
+        el = st.elems(L.term, ("ref", "EventHook")); j = z3.Int("j_thrl")
+        fj = hook_fields(st, V(("ref", "EventHook"), z3.Select(el, j)))
+        return [("one hook per target visited so far", st.length(L.term) == i),
+                ("the j-th hook is a before-step hook of this rule for the j-th target, at all times",
+                 z3.ForAll([j], z3.Implies(z3.And(0 <= j, j < i), z3.And(fj["event"].term == rule.term, fj["hook_type"].term == z3.StringVal("market"), fj["is_before"].term, fj["time"].none, fj["specific_class"].none,
+                                                                          z3.Not(fj["specific_instance"].none), fj["specific_instance"].term == at(ctx["entry"].peek(), j).term)))),
+                ("the hooks collected so far are objects created by this call", z3.And(z3.Not(ctx["fn_entry"].is_alloc(L.term)), st.is_alloc(L.term),
+                                                                                     z3.ForAll([j], z3.Implies(z3.And(0 <= j, j < i), z3.And(z3.Not(ctx["fn_entry"].is_alloc(z3.Select(el, j))), st.is_alloc(z3.Select(el, j)))))))]
+
+    def on_exit(ex, s1, ctx):
+        # two cut lemmas (proved here, then available to the postcondition): the hooks collected are exactly one per target market
+        if ctx.get("broke"):
+            return
+        rule = s1.env["self"]; tm = ctx["entry"].read(rule, "target_markets")
+        L = s1.env["event_hooked_before_step_for_market"]
+        el = s1.elems(L.term, ("ref", "EventHook")); j = z3.Int("j_cut"); k = z3.Const("k_cut", z3.StringSort())
+        inst = lambda jj: hook_fields(s1, V(("ref", "EventHook"), z3.Select(el, jj)))["specific_instance"].term
+        dom, val = ctx["entry"].dict_dom(tm), ctx["entry"].dict_val(tm)
+        n = s1.length(L.term)
+        for label, f in (("every collected hook is for some target market", z3.ForAll([j], z3.Implies(z3.And(0 <= j, j < n), z3.Exists([k], z3.And(z3.Select(dom, k), z3.Select(val, k) == inst(j)))))),
+                         ("every target market has a collected hook", z3.ForAll([k], z3.Implies(z3.Select(dom, k), z3.Exists([j], z3.And(0 <= j, j < n, inst(j) == z3.Select(val, k))))))):
+            s1.oblige("cut:" + label, f, "lemma")
+            s1.assume(f)
+        # Skolem form of the second lemma (sound once the lemma is proved): names the position of a target's hook, so later steps need not guess it
+        pos = z3.Function("thr_hook_position", z3.StringSort(), z3.IntSort())
+        s1.assume(z3.ForAll([k], z3.Implies(z3.Select(dom, k), z3.And(0 <= pos(k), pos(k) < n, inst(pos(k)) == z3.Select(val, k)))))
+    return {0: LoopSpec(inv, on_exit=on_exit, modifies=lambda st, ctx: ["len", "mem", "el:Ref", "nodup", "heapok"] + [("f:EventHook." + f, []) for f in ("event", "hook_type", "is_before", "time", "specific_class", "specific_instance")],
+                        header="self.target_markets.values()", name="targets", frame_since_entry=True)}
+
+
+THR_REGISTRATION = FSpec("TradingHaltRule.hook_registration", post=thr_reg_post, props=("C16",), fresh_result=True, result=("list", ("ref", "EventHook")),
+                         modifies=lambda st, a: ["len", "mem", "el:Ref", "nodup", "heapok"] + [("f:EventHook." + f, []) for f in ("event", "hook_type", "is_before", "time", "specific_class", "specific_instance")])
+
+
+@task("TradingHaltRule.hook_registration", props=["C16", "C13"], functions=["TradingHaltRule.hook_registration", "EventHook.__init__"], replay="events")
+def t_thr_registration():
+    """the halt rule registers its after-execution hook and exactly one before-step hook for each of its target markets (that hook resumes the market on schedule)"""
+    def setup(ex, st, a):
+        # the collecting list is created by an unannotated `[]`: its element type is the type of what the loop appends
+        st.ghost["@decl:event_hooked_before_step_for_market"] = ("list", ("ref", "EventHook"))
+    obl, info = THR_REGISTRATION.verify(loops=thr_reg_loops(), setup=setup)
+    return {"obligations": obl, "info": [info]}
